@@ -72,13 +72,37 @@ func c02Case(r *obs.Run, i int) {
 			fail("panic", fmt.Sprintf("panic: %v", e))
 		}
 	}()
+	if i%50 == 49 {
+		c02Parallel(r)
+		return
+	}
 	if i%2 == 0 {
 		// ---- BED ----
 		n := []int{3, 4, 5, 6, 12}[rng.Intn(5)]
 		nrec := 1 + rng.Intn(5)
 		var recs []feat.Feature
 		for k := 0; k < nrec; k++ {
-			recs = append(recs, genBed(rng, n))
+			if n <= 6 && rng.Intn(6) == 0 { // a feature that is not a bed record: the writer renders it from its accessors
+				recs = append(recs, c02GenForeign(rng))
+				r.Count("bed_features_of_other_types", 1)
+			} else {
+				recs = append(recs, genBed(rng, n))
+			}
+		}
+		// the records as they are before any writer has seen them: what is read back is compared with these, and no
+		// writer may change the caller's record
+		orig := make([]feat.Feature, nrec)
+		for k, f := range recs {
+			orig[k] = c02CopyBed(f)
+		}
+		unchanged := func(when string) bool {
+			for k, f := range recs {
+				if !reflect.DeepEqual(f, orig[k]) {
+					fail("caller-record-modified", fmt.Sprintf("%s the caller's record %d is %s, it was %s", when, k, c02Brief(f), c02Brief(orig[k])))
+					return false
+				}
+			}
+			return true
 		}
 		w["format"] = fmt.Sprint("bed", n)
 		var rb []string
@@ -111,6 +135,11 @@ func c02Case(r *obs.Run, i int) {
 				}
 				ends[k] = cw.buf.Len()
 				r.Count("write_calls_counted", 1)
+				if !reflect.DeepEqual(f, orig[k]) {
+					fail("caller-record-modified", fmt.Sprintf("after bed Write at width %d the caller's record %d is %s, it was %s", m, k, c02Brief(f), c02Brief(orig[k])))
+					return
+				}
+				r.Count("records_unchanged_after_write", 1)
 			}
 			data := append([]byte(nil), cw.buf.Bytes()...)
 			w["emitted"] = string(data)
@@ -198,12 +227,12 @@ func c02Case(r *obs.Run, i int) {
 				return
 			}
 			for k := range recs {
-				want := bedPrefix(recs[k], m)
+				want := c02BedWant(orig[k], m, got[k])
 				if !reflect.DeepEqual(got[k], want) {
 					fail("record-differs", fmt.Sprintf("bed%d written at %d: record %d reads back as %+v, want %+v", n, m, k, got[k], want))
 					return
 				}
-				if got[k].Start() != recs[k].Start() || got[k].End() != recs[k].End() || got[k].Len() != recs[k].Len() {
+				if got[k].Start() != orig[k].Start() || got[k].End() != orig[k].End() || got[k].Len() != orig[k].Len() {
 					fail("record-differs", fmt.Sprintf("bed%d record %d Start/End/Len not preserved", n, k))
 					return
 				}
@@ -221,13 +250,54 @@ func c02Case(r *obs.Run, i int) {
 				if m < n {
 					r.Count("bed_narrower_widths", 1)
 				}
+				if c02IsForeign(orig[k]) {
+					r.Count("bed_features_of_other_types_compared", 1)
+				}
+			}
+			// the same bytes through every narrower reader: a reader for fewer columns either takes the leading columns of
+			// a wider line or refuses wider lines with an error (all lines of the file are equally wide, so it then
+			// refuses the first); what it returns without an error is the record's first m2 columns
+			for _, m2 := range []int{3, 4, 5, 6} {
+				if m2 >= m {
+					break
+				}
+				nr, err := bed.NewReader(newSrc(rng, data), m2)
+				if err != nil {
+					fail("read-error", "NewReader: "+err.Error())
+					return
+				}
+				for k := 0; k <= nrec; k++ {
+					f, err := nr.Read()
+					if err != nil && err != io.EOF && k == 0 {
+						r.Count("bed_wider_lines_refused_by_narrower_reader", 1)
+						break
+					}
+					if err != nil && err != io.EOF {
+						w["read_width"] = m2
+						fail("read-error", fmt.Sprintf("bed%d written at %d: the bed%d reader took the first %d records and then returned %v", n, m, m2, k, err))
+						return
+					}
+					if (err == io.EOF) != (k == nrec) {
+						fail("record-count", fmt.Sprintf("wrote %d bed records at width %d, the bed%d reader returned (%v,%v) at call %d", nrec, m, m2, f, err, k))
+						return
+					}
+					if err == io.EOF {
+						break
+					}
+					if want := c02BedWant(orig[k], m2, f); !reflect.DeepEqual(f, want) {
+						w["read_width"] = m2
+						fail("record-differs", fmt.Sprintf("bed%d written at %d and read with the bed%d reader: record %d reads back as %s, want %s", n, m, m2, k, c02Brief(f), c02Brief(want)))
+						return
+					}
+					r.Count("bed_records_read_with_narrower_reader", 1)
+				}
 			}
 			// the same bytes through featio.Scanner
 			if br2, err := bed.NewReader(newSrc(rng, data), m); err == nil {
 				sc := featio.NewScanner(br2)
 				k := 0
 				for sc.Next() {
-					if k >= nrec || !reflect.DeepEqual(sc.Feat(), bedPrefix(recs[k], m)) {
+					if k >= nrec || !reflect.DeepEqual(sc.Feat(), c02BedWant(orig[k], m, sc.Feat())) {
 						fail("scanner", fmt.Sprintf("featio.Scanner bed%d record %d differs", m, k))
 						return
 					}
@@ -240,6 +310,9 @@ func c02Case(r *obs.Run, i int) {
 				r.Count("scanner_passes", 1)
 			}
 			r.Note("bed/"+fmt.Sprint(n, m)+string(data), m > 3)
+		}
+		if !unchanged("after all writers (also the failing and the refused ones) and readers were done") {
+			return
 		}
 		if r.WantSample() && i < 40 && nrec <= 2 {
 			delete(w, "write_width")
@@ -262,6 +335,9 @@ func c02Case(r *obs.Run, i int) {
 		f    *gff.Feature
 		reg  *gff.Region
 		sq   *linear.Seq
+		f0   *gff.Feature // the feature as it was before any writer saw it
+		reg0 gff.Region
+		sq0  c02SeqSnap
 	}
 	var items []item
 	var desc []string
@@ -292,11 +368,17 @@ func c02Case(r *obs.Run, i int) {
 		switch c := rng.Intn(10); {
 		case c < 5:
 			f := genGFF(rng)
-			items = append(items, item{kind: "feature", f: f})
+			f0 := c02CopyGFF(f)
+			items = append(items, item{kind: "feature", f: f, f0: f0})
 			desc = append(desc, "feature "+gffBrief(f))
 			if !write("Write(feature)", func(gw *gff.Writer) (int, error) { return gw.Write(f) }) {
 				return
 			}
+			if !reflect.DeepEqual(f, f0) {
+				fail("caller-record-modified", fmt.Sprintf("after gff Write the caller's feature is %s, it was %s", gffBrief(f), gffBrief(f0)))
+				return
+			}
+			r.Count("records_unchanged_after_write", 1)
 			if f.FeatScore != nil || len(f.FeatAttributes) > 0 || f.Comments != "" {
 				nontrivial = true
 			}
@@ -325,7 +407,7 @@ func c02Case(r *obs.Run, i int) {
 				s = 1 << 62
 			}
 			reg := &gff.Region{Sequence: gff.Sequence{SeqName: genNoSpace(rng), Type: curType}, RegionStart: s, RegionEnd: s + 1 + rng.Intn(100000)}
-			items = append(items, item{kind: "region", reg: reg})
+			items = append(items, item{kind: "region", reg: reg, reg0: *reg})
 			desc = append(desc, fmt.Sprintf("region %q type %v [%d,%d)", reg.SeqName, reg.Type, reg.RegionStart, reg.RegionEnd))
 			// the same ##sequence-region line can be asked for in four ways
 			how := rng.Intn(4)
@@ -344,7 +426,7 @@ func c02Case(r *obs.Run, i int) {
 			}
 			nontrivial = true
 		case c < 9:
-			al := []alphabet.Alphabet{alphabet.DNA, alphabet.RNA, alphabet.Protein, alphabet.DNAgapped, alphabet.DNAredundant}[rng.Intn(5)]
+			al := []alphabet.Alphabet{alphabet.DNA, alphabet.RNA, alphabet.Protein, alphabet.DNAgapped, alphabet.DNAredundant, alphabet.RNAgapped, alphabet.RNAredundant}[rng.Intn(7)]
 			sl := 1 + rng.Intn(300)
 			if width > 1000 || rng.Intn(20) == 0 {
 				sl = 3000 + rng.Intn(17000)
@@ -353,11 +435,25 @@ func c02Case(r *obs.Run, i int) {
 			if rng.Intn(3) == 0 {
 				sq.Desc = genDesc(rng)
 			}
-			items = append(items, item{kind: "sequence", sq: sq})
+			sq0 := c02SnapSeq(sq)
+			items = append(items, item{kind: "sequence", sq: sq, sq0: sq0})
 			desc = append(desc, fmt.Sprintf("sequence %q desc %q %d letters of %v", sq.ID, sq.Desc, sq.Len(), al.Moltype()))
-			if !write("Write(sequence)", func(gw *gff.Writer) (int, error) { return gw.Write(sq) }) {
+			// an inline sequence can be asked for in two ways
+			how := rng.Intn(2)
+			if !write([]string{"Write(sequence)", "WriteMetaData(sequence)"}[how], func(gw *gff.Writer) (int, error) {
+				if how == 1 {
+					return gw.WriteMetaData(sq)
+				}
+				return gw.Write(sq)
+			}) {
 				return
 			}
+			if c02SnapSeq(sq) != sq0 {
+				fail("caller-record-modified", fmt.Sprintf("after gff %s the caller's sequence %q is no longer what it was", []string{"Write", "WriteMetaData"}[how], sq0.id))
+				return
+			}
+			r.Count("records_unchanged_after_write", 1)
+			r.Count("gff_sequences_by_"+[]string{"Write", "WriteMetaData"}[how], 1)
 			nontrivial = true
 		default:
 			c := genField(rng, true)
@@ -473,7 +569,7 @@ func c02Case(r *obs.Run, i int) {
 	var feats []*gff.Feature
 	for _, it := range items {
 		if it.kind == "feature" {
-			feats = append(feats, it.f)
+			feats = append(feats, it.f0)
 		}
 	}
 	for _, ln := range strings.Split(string(data), "\n") {
@@ -508,13 +604,23 @@ func c02Case(r *obs.Run, i int) {
 		return
 	}
 
+	// the whole file is read before anything is compared: storage shared between the items of one reader shows
 	gr := gff.NewReader(newSrc(rng, data))
+	var got []feat.Feature
 	for k, it := range items {
 		f, err := gr.Read()
 		if err != nil {
 			fail("read-error", fmt.Sprintf("item %d (%s): reader returned %v", k, it.kind, err))
 			return
 		}
+		got = append(got, f)
+	}
+	if f, err := gr.Read(); err != io.EOF {
+		fail("record-count", fmt.Sprintf("reader returned (%v,%v) after the last item instead of io.EOF", f, err))
+		return
+	}
+	for k, it := range items {
+		f := got[k]
 		switch it.kind {
 		case "feature":
 			g, ok := f.(*gff.Feature)
@@ -522,11 +628,11 @@ func c02Case(r *obs.Run, i int) {
 				fail("record-differs", fmt.Sprintf("item %d: expected a feature, got %T", k, f))
 				return
 			}
-			if !reflect.DeepEqual(gffNormalise(g), gffNormalise(it.f)) {
-				fail("record-differs", fmt.Sprintf("item %d: feature reads back as %s, want %s", k, gffBrief(g), gffBrief(it.f)))
+			if !reflect.DeepEqual(gffNormalise(g), gffNormalise(it.f0)) {
+				fail("record-differs", fmt.Sprintf("item %d: after the whole file was read (and the caller appended to the attribute lists of the items before it) the feature is %s, want %s", k, gffBrief(g), gffBrief(it.f0)))
 				return
 			}
-			if g.Start() != it.f.Start() || g.End() != it.f.End() || g.Len() != it.f.Len() {
+			if g.Start() != it.f0.Start() || g.End() != it.f0.End() || g.Len() != it.f0.Len() {
 				fail("record-differs", fmt.Sprintf("item %d: Start/End/Len not preserved", k))
 				return
 			}
@@ -535,8 +641,8 @@ func c02Case(r *obs.Run, i int) {
 				for a := range g.FeatAttributes {
 					_ = append([]byte(g.FeatAttributes[a].Tag), 'x')
 				}
-				if !reflect.DeepEqual(gffNormalise(g), gffNormalise(it.f)) {
-					fail("record-differs", fmt.Sprintf("item %d: after the caller appended to its attribute list the feature reads %s, want %s", k, gffBrief(g), gffBrief(it.f)))
+				if !reflect.DeepEqual(gffNormalise(g), gffNormalise(it.f0)) {
+					fail("record-differs", fmt.Sprintf("item %d: after the caller appended to its attribute list the feature reads %s, want %s", k, gffBrief(g), gffBrief(it.f0)))
 					return
 				}
 			}
@@ -547,8 +653,8 @@ func c02Case(r *obs.Run, i int) {
 				fail("record-differs", fmt.Sprintf("item %d: expected a region, got %T", k, f))
 				return
 			}
-			if !reflect.DeepEqual(g, it.reg) {
-				fail("record-differs", fmt.Sprintf("item %d: region reads back as %+v, want %+v", k, *g, *it.reg))
+			if g == nil || *g != it.reg0 {
+				fail("record-differs", fmt.Sprintf("item %d: region reads back as %+v, want %+v", k, g, it.reg0))
 				return
 			}
 			r.Count("gff_regions_compared", 1)
@@ -558,17 +664,40 @@ func c02Case(r *obs.Run, i int) {
 				fail("record-differs", fmt.Sprintf("item %d: expected a sequence, got %T", k, f))
 				return
 			}
-			got := seqToRec(g, false)
-			if got.Name != it.sq.ID || got.Letters != string(alphabet.LettersToBytes(it.sq.Seq)) {
-				fail("record-differs", fmt.Sprintf("item %d: inline sequence %q reads back as %q with %d letters (first difference at %d)", k, it.sq.ID, got.Name, len(got.Letters), firstDiff(got.Letters, string(alphabet.LettersToBytes(it.sq.Seq)))))
+			rec := seqToRec(g, false)
+			if rec.Name != it.sq0.id || rec.Letters != it.sq0.letters {
+				fail("record-differs", fmt.Sprintf("item %d: inline sequence %q reads back as %q with %d letters (first difference at %d)", k, it.sq0.id, rec.Name, len(rec.Letters), firstDiff(rec.Letters, it.sq0.letters)))
+				return
+			}
+			// the molecule type (not the alphabet: gapped and redundant DNA are written as ##DNA) belongs to the letters
+			if mol := g.Alphabet().Moltype(); mol != it.sq0.mol {
+				fail("record-differs", fmt.Sprintf("item %d: inline %v sequence %q reads back as a %v sequence", k, it.sq0.mol, it.sq0.id, mol))
 				return
 			}
 			r.Count("gff_sequences_compared", 1)
 		}
 	}
-	if f, err := gr.Read(); err != io.EOF {
-		fail("record-count", fmt.Sprintf("reader returned (%v,%v) after the last item instead of io.EOF", f, err))
-		return
+	// what was read is the caller's: it writes through the score pointer of one item, overwrites and extends its
+	// attribute list or its letters; every other item stays what it was
+	{
+		cur := make([]interface{}, len(got))
+		for k := range got {
+			cur[k] = c02Snap(got[k])
+		}
+		for k := range got {
+			if !c02Scribble(got[k]) {
+				continue
+			}
+			for j := range got {
+				if j != k && !c02SameAsSnap(got[j], cur[j]) {
+					w["scribbled_item"], w["changed_item"] = k, j
+					fail("record-differs", fmt.Sprintf("after the caller wrote on item %d (%s) it had read (score target, attribute list, letters), item %d (%s) of the same reader changed: it was %+v, it is %+v", k, items[k].kind, j, items[j].kind, cur[j], c02Snap(got[j])))
+					return
+				}
+			}
+			cur[k] = c02Snap(got[k])
+			r.Count("gff_read_items_written_on_by_the_caller", 1)
+		}
 	}
 	{
 		sc := featio.NewScanner(gff.NewReader(newSrc(rng, data)))
@@ -593,6 +722,19 @@ func c02Case(r *obs.Run, i int) {
 	if header && gr.Version != gff.Version {
 		fail("record-differs", "header written but reader's Version not set")
 		return
+	}
+	for k, it := range items { // after the failing and the refused writers and the readers were done, too
+		switch {
+		case it.kind == "feature" && !reflect.DeepEqual(it.f, it.f0):
+			fail("caller-record-modified", fmt.Sprintf("after all writers and readers were done the caller's feature (item %d) is %s, it was %s", k, gffBrief(it.f), gffBrief(it.f0)))
+			return
+		case it.kind == "region" && *it.reg != it.reg0:
+			fail("caller-record-modified", fmt.Sprintf("after all writers and readers were done the caller's region (item %d) is %+v, it was %+v", k, *it.reg, it.reg0))
+			return
+		case it.kind == "sequence" && c02SnapSeq(it.sq) != it.sq0:
+			fail("caller-record-modified", fmt.Sprintf("after all writers and readers were done the caller's sequence %q (item %d) is no longer what it was", it.sq0.id, k))
+			return
+		}
 	}
 	r.Note("gff/"+string(data), nontrivial)
 	if r.WantSample() && len(data) < 400 && i < 60 {
